@@ -150,7 +150,7 @@ func judgeSrc(c *fw.Ctx, src string, prog []*model.N, jo judgeOpts) (o h.Outcome
 func parenAll(prog []*model.N) []*model.N {
 	out := make([]*model.N, len(prog))
 	for i, s := range prog {
-		out[i] = model.Parenthesize(s, true)
+		out[i] = model.FixDangling(model.Parenthesize(s, true))
 	}
 	return out
 }
